@@ -179,6 +179,18 @@ CHECKS.update({
     ),
 })
 
+CHECKS.update({
+    "C24": (
+        "generated expressions and terminal mappings (numbers, nested tuples, callables with derivatives); oracle = interpreter value at the same physical point with the same polynomial fields",
+        "Hypothesis-generated scalar/vector/matrix expressions over arithmetic, powers, math/Bessel functions, conditionals, "
+        "index notation, list/component tensors, compound algebra, variables, x and spatial derivatives up to order 2; every "
+        "component of e(x, mapping) is compared with the interpreter's value where each coefficient is the same polynomial in "
+        "x that the mapping's callable implements (value and exact partial derivatives by plain polynomial arithmetic).",
+        "Trusts the interpreter; flat cells; node types without an evaluate method are counted, not reported.",
+        "4/C24",
+    ),
+})
+
 NOT_YET = {}
 
 
